@@ -25,7 +25,7 @@ Definition try_coalesce (last : patch) (off old : Z) (blob : bytes) : option pat
   let last_end := add_last_end (p_off last) (p_old last) in
   let old_combo := add_old_combo (p_old last) old in
   let new_combo := add_new_combo (p_new last) (zlen blob) in
-  if add_coalesce_cond off last_end old_combo new_combo
+  if add_coalesce_cond off last_end old_combo new_combo old (zlen blob) (p_off last) (p_old last) (p_new last)
   then Some (mkPatch (p_off last) old_combo (p_blob last ++ blob))
   else None.
 
